@@ -19,6 +19,7 @@ MODS="${SLAB_MODS:-AtreeProofs.Props.TransSlabs AtreeProofs.Props.TransSlabsData
 
 run() { # name kind patch-id-or-empty [file sed-expression]
   local name="$1" kind="$2" patch="$3" file="${4:-}" expr="${5:-}"
+  if [ -n "${ONLY:-}" ] && ! echo "$name" | grep -qE "$ONLY"; then return; fi
   rm -rf "$MUT"; mkdir -p "$MUT"; cp "$REPO"/*.go "$MUT"/
   if [ -n "$patch" ]; then
     (cd "$MUT" && patch -s -p1 < "$PATCHES/$patch.diff") || { echo "[$name] PATCH DID NOT APPLY"; return; }
@@ -78,8 +79,13 @@ run A43 semantic A43      # promoteChildAsNewRoot: child slab not removed
 # hand-made: aliasing
 run slice-alias untransl "" array_data_slab.go 's/^\ta\.elements, rightSlab\.elements = lendToRight\(a\.elements, rightSlab\.elements, int\(moveCount\)\)$/\tleftElems := a.elements\n\ta.elements, rightSlab.elements = lendToRight(leftElems, rightSlab.elements, int(moveCount))/'
 run stale-arg   untransl "" array_data_slab.go 's/^\ta\.elements, rightElements = split\(a\.elements, leftCount\)$/\t_, rightElements = split(a.elements, leftCount)/'
+run write-through-source untransl "" array_metadata_slab.go 's/^\tmergedSlab := leftChildSlab$/\tmergedSlab := leftChildSlab\n\tleftChildSlab.SetSlabID(SlabID{})/'
+run use-after-move       untransl "" array.go 's/^\ta\.root\.SetSlabID\(rootID\)$/\ta.root.SetSlabID(child.SlabID())/'
+run two-aliases          untransl "" array_metadata_slab.go 's/^\tobseleteSlab := rightChildSlab$/\tobseleteSlab := rightChildSlab\n\tother := leftChildSlab\n\t_ = other/'
+run same-object-twice    untransl "" array_metadata_slab.go 's/^\terr := leftChildSlab\.Merge\(rightChildSlab\)$/\terr := leftChildSlab.Merge(leftChildSlab)/'
 # cosmetic rewrites
-run cosmetic-rename-local  cosmetic "" array_data_slab.go '/^func \(a \*ArrayDataSlab\) Split\(/,/^}/s/\bleftSize\b/lsz/g'
+# (renaming `leftSize` / `leftCount` of Split is NOT cosmetic for the older stateless engine: its VIEW table names these result locals)
+run cosmetic-rename-local  cosmetic "" array_data_slab.go '/^func \(a \*ArrayDataSlab\) Split\(/,/^}/s/\bmidPoint\b/mid/g; /^func \(a \*ArrayDataSlab\) Insert\(/,/^}/s/\bstorable\b/st/g'
 run cosmetic-flip-compare  cosmetic "" array_data_slab.go 's/^\tif index >= uint64\(len\(a\.elements\)\) \{$/\tif uint64(len(a.elements)) <= index {/'
 run cosmetic-rename-recv   cosmetic "" array_metadata_slab.go '/^func \(a \*ArrayMetaDataSlab\) mergeChildren\(/,/^}/s/\ba\b/meta/g'
 run cosmetic-extra-local   cosmetic "" array_data_slab.go 's/^\ta\.header\.count \+= rightSlab\.header\.count$/\trc := rightSlab.header.count\n\ta.header.count += rc/'
